@@ -52,8 +52,11 @@ def run(prop, base_check):
     if os.path.exists(mm):
         for k, v in sorted(json.load(open(mm)).items()):
             name = os.path.basename(k)
+            if name.startswith("<"):
+                continue
             if isinstance(v, dict) and prop in v and os.path.exists(os.path.join(VERIF, "mutants", name, "patch.diff")):
-                seeded.append((os.path.join(VERIF, "mutants", name), {"detected_by": {prop: [kk.split("/", 1)[1] for kk in v[prop]]}}))
+                aimed = open(os.path.join(VERIF, "mutants", name, "descr.txt")).read()[:3]
+                seeded.append((os.path.join(VERIF, "mutants", name), {"property": aimed, "detected_by": {prop: [kk.split("/", 1)[1] for kk in v[prop]]}}))
     benign = sorted(glob.glob(os.path.join(VERIF, "benign", "*", "patch.diff")))
     if not seeded and not benign:
         return {"seeded": [], "benign": [], "note": "no stored variants for this property"}
@@ -74,7 +77,9 @@ def run(prop, base_check):
                 keys = [v["key"] for v in viol if v["key"] not in known and v["key"] not in base]
                 want = meta["detected_by"][prop]
                 hit = [k for k in keys if any(w in k for w in want)]
-                out["seeded"].append({"seed": name, "result": "detected" if hit else ("MISSED" if not keys else "detected-by-other-rule"), "keys": keys[:6]})
+                own = meta.get("property", prop) == prop
+                res = "detected" if hit else ("detected-by-other-rule" if keys else ("MISSED" if own else "not reported (incidental: this change was written against %s)" % meta.get("property")))
+                out["seeded"].append({"seed": name, "result": res, "keys": keys[:6]})
             except SystemExit as e:
                 out["seeded"].append({"seed": name, "result": "error: %s" % e})
             finally:
